@@ -559,7 +559,9 @@ func (e *Exec) val(s *State, v ssa.Value) Value {
 	case *ssa.Function:
 		return e.funcRef(x)
 	case *ssa.Global:
-		return e.globalPtr(x)
+		g := e.globalPtr(x).(*Node)
+		s.assume(App(">", "Bool", g, IntLit(0)))
+		return g
 	case *ssa.Builtin:
 		return IntLit(0)
 	}
@@ -819,7 +821,17 @@ func (e *Exec) unop(s *State, x *ssa.UnOp) Value {
 				e.addObl(s, e.oblName("safety/nil-deref"), "safety", Not(Eq(n, IntLit(0))), x.Pos(), "nil pointer dereference")
 			}
 		}
-		return e.readLoc(s, e.resolve(p, t))
+		v := e.readLoc(s, e.resolve(p, t))
+		if g, ok := x.X.(*ssa.Global); ok && e.v.db.NonNil[g.Pkg.Pkg.Path()+"."+g.Name()] {
+			if n, ok := v.(*Node); ok {
+				if n.Sort == "Iface" {
+					s.assume(Not(Eq(n, ifaceNil())))
+				} else if n.Sort == RefSort {
+					s.assume(Not(Eq(n, IntLit(0))))
+				}
+			}
+		}
+		return v
 	case token.NOT:
 		return Not(e.val(s, x.X).(*Node))
 	case token.SUB:
@@ -910,6 +922,21 @@ func (e *Exec) binop(s *State, op token.Token, a, b Value, at, bt types.Type, po
 		}
 	}
 	if isString(at) {
+		if op == token.EQL || op == token.NEQ {
+			var eq *Node
+			switch {
+			case an == strEmpty():
+				eq = Eq(e.strLen(bn), e.idx(0))
+			case bn == strEmpty():
+				eq = Eq(e.strLen(an), e.idx(0))
+			default:
+				eq = Eq(an, bn)
+			}
+			if op == token.NEQ {
+				return Not(eq)
+			}
+			return eq
+		}
 		switch op {
 		case token.EQL:
 			return Eq(an, bn)
